@@ -92,6 +92,33 @@ int g_lkind, g_rkind;                         /* their kinds before the call */
 	X(IMP(g_lek == EK_CONST, g_l->u.constant.u == g_lv)) \
 	X(IMP(g_rek == EK_CONST, g_r->u.constant.u == g_rv))
 
+/*
+ * post-state observers: the operands of the returned node and (for pointer arithmetic) their operands, read once after
+ * the call through NODE() (see expr_util.h).  x / xl / xr ... name positions in the returned tree.
+ */
+struct expr *g_x, *g_xl, *g_xr, *g_xll, *g_xlr, *g_xrl, *g_xrr;
+#define OPND(p) ((p) == g_l ? g_l : (p) == g_r ? g_r : NODE(p))
+
+static struct expr *
+mkb_observe(struct expr *e)
+{
+	g_x = e;
+	g_xl = g_xr = g_xll = g_xlr = g_xrl = g_xrr = 0;
+	if (e && e->kind == EXPRBINARY) {
+		g_xl = OPND(e->u.binary.l);
+		g_xr = OPND(e->u.binary.r);
+		if (g_xl && g_xl != g_l && g_xl != g_r && g_xl->kind == EXPRBINARY) {
+			g_xll = OPND(g_xl->u.binary.l);
+			g_xlr = OPND(g_xl->u.binary.r);
+		}
+		if (g_xr && g_xr != g_l && g_xr != g_r && g_xr->kind == EXPRBINARY) {
+			g_xrl = OPND(g_xr->u.binary.l);
+			g_xrr = OPND(g_xr->u.binary.r);
+		}
+	}
+	return e;
+}
+
 /* compile-time case split of the universe (keeps CBMC's points-to sets small); the two cases are exhaustive */
 #ifdef U_ARITH
 #define U_CASE (g_lts <= BS_ENB && g_rts <= BS_ENB)          /* both operands arithmetic */
